@@ -93,7 +93,20 @@ def mkproc(p):
         return ScriptProc(p['spec'], p.get('name'))
     if p['cls'] == 'SEIR':
         return SEIR()
-    return CLASSES[p['cls']](p['name']) if p.get('name') else CLASSES[p['cls']]()
+    cls = CLASSES[p['cls']]
+    if p.get('force'):
+        # seeding through the documented hook: default random placement, then chosen nodes forced with changeInitialCompartment()
+        force = [(n, ck) for (n, ck) in p['force']]
+
+        class Forced(cls):
+            def initialCompartments(self):
+                super().initialCompartments()
+                for (n, ck) in force: self.changeInitialCompartment(n, getattr(self, ck))
+        Forced.__name__ = cls.__name__; Forced.__qualname__ = cls.__qualname__
+        q = Forced(p['name']) if p.get('name') else Forced()
+        q._vp_force = force
+        return q
+    return cls(p['name']) if p.get('name') else cls()
 
 
 def fixspec(sp):
@@ -119,7 +132,7 @@ def build_case(spec):
         return ProcessSequence(ps)
     params = {}
     for p in procs: params.update(p.get('params', {}))
-    return dict(procs_json=procs, build=build, dyn=spec['dyn'], nodes=spec['nodes'], edges=[tuple(e) for e in spec['edges']], maxT=spec['maxT'],
+    return dict(history=spec.get('history', []), fixed_proto=spec.get('fixed_proto', False), preattr=spec.get('preattr'), procs_json=procs, build=build, dyn=spec['dyn'], nodes=spec['nodes'], edges=[tuple(e) for e in spec['edges']], maxT=spec['maxT'],
                 seed=spec['seed'], params=params, specials=spec.get('specials', ()), pspecial=spec.get('pspecial', 0.0),
                 oracles=[ORACLES[o] for o in spec.get('oracles', [])], finals=[FINALS[o] for o in spec.get('oracles', []) if o in FINALS])
 
@@ -203,7 +216,19 @@ def gen_shipped(rnd, classes=None, dyn=None, oracles=('clock', 'member', 'loci')
     ps = sorted({v for k, v in params.items() if isinstance(v, float) and 0 < v < 1})
     return dict(procs=[dict(cls=cls, name=None, params=params)], seq='bare', dyn=dyn or rnd.choice(['sto', 'syn']), nodes=nodes,
                 edges=edges, maxT=maxT or rnd.choice([3.0, 6.0, 12.0]), seed=rnd.random(), specials=ps, pspecial=0.15,
-                oracles=list(oracles))
+                oracles=list(oracles), preattr=(rnd.randrange(1 << 30) if rnd.random() < 0.25 else None))
+
+
+def gen_forced(rnd, dyn=None):
+    base = gen_shipped(rnd, classes=['SIR', 'SIS', 'SIRS', 'SIR_FixedRecovery', 'SIS_FixedRecovery', 'Opinion'], dyn=dyn,
+                       oracles=('clock', 'member', 'loci', 'diagram', 'forest'), net=rand_net(rnd, 3, 7, kind=rnd.choice(['er', 'complete', 'path', 'star'])))
+    p = base['procs'][0]
+    inf, sus = ('SPREADER', 'IGNORANT') if p['cls'] == 'Opinion' else ('INFECTED', 'SUSCEPTIBLE')
+    nodes = base['nodes']
+    # (Opinion: only towards SPREADER — moving a spreader back exercises the L-in-R locus of known finding K1, which is C01's business)
+    p['force'] = [[rnd.choice(nodes), rnd.choice([inf, inf, sus]) if p['cls'] != 'Opinion' else inf] for _ in range(rnd.randint(1, 4))]
+    base['preattr'] = None
+    return base
 
 
 def gen_script_queue(rnd, dyn=None):
@@ -394,6 +419,13 @@ def oracle_diagram(d, ex, cur, t, p, name, e):
                         t0 = st['since'].get((key, n), 0.0)
                         if t != t0 + q._tInfected:
                             out = out or f"{cls}: node {n} entered I at {t0} and left at {t}, configured time {q._tInfected}"
+                        st['since'].pop((key, n), None)
+        if cls in ('SIR_FixedRecovery', 'SIS_FixedRecovery'):
+            for n, c in now.items():
+                if c == q.INFECTED:
+                    t0 = st['since'].get((key, n), 0.0)
+                    if t0 + q._tInfected < t and not cur.get('posted'):
+                        out = out or f"{cls}: node {n} entered I at {t0} and is still infected at {t}, configured time {q._tInfected}"
         st['prev'][key] = now
         # transmission acts on every susceptible-infectious edge: rate of the infection event = p * number of such edges
         if d.__class__.__mro__[1].__name__ == 'StochasticDynamics' and cls not in ('SIR_VariableInfection', 'Opinion', 'Vaccinate', 'SEIR'):
@@ -798,6 +830,10 @@ def gen_adddel(rnd, dyn=None, combo=None):
     combo = combo or rnd.choice(['alone', 'alone', 'inherit', 'inherit', 'seq', 'full'])
     nodes, edges = rand_net(rnd, 2, 7)
     n = len(nodes)
+    if rnd.random() < 0.5:
+        # labels beyond the order (a sub-network, even labels, ...): newNodeName must step over names in use
+        lab = sorted(rnd.sample(range(0, 2 * n + 4), n)); rnd.shuffle(lab)
+        nodes = [lab[x] for x in nodes]; edges = [[lab[a], lab[b]] for a, b in edges]
     regime = rnd.choice(['mixed', 'mixed', 'growth', 'decay'])
     pa, pd = dict(mixed=(rnd.choice([0.25, 0.5, 1.0]), rnd.choice([0.25, 0.5, 1.0])), growth=(rnd.choice([0.5, 1.0]), 0.0),
                   decay=(0.0, rnd.choice([0.5, 1.0, 2.0])))[regime]
@@ -888,3 +924,70 @@ def final_adddel(d, ex, res, md, spec):
 oracle_adddel.at_start = True
 ORACLES['adddel'] = oracle_adddel
 FINALS['adddel'] = final_adddel
+
+
+# ---------------------------------------------------------------------------------------------------------------
+# C10: earlier runs on the same experiment object, then the recorded run
+def gen_rerun(rnd, classes=None, dyn=None):
+    base = gen_shipped(rnd, classes=classes or rnd.choice([['SIR_FixedRecovery', 'SIS_FixedRecovery'], ['SIR_FixedRecovery', 'SIS_FixedRecovery'], None]),
+                       dyn=dyn, oracles=('clock', 'member', 'loci', 'diagram', 'forest'), net=rand_net(rnd, 3, 7))
+    if rnd.random() < 0.3:
+        base['procs'].append(dict(cls='Monitor', name=None, params={Monitor.DELTA: rnd.choice([0.5, 1.0])})); base['seq'] = 'list'
+        base['oracles'] = ['clock', 'member', 'loci']
+    hist = []
+    n = len(base['nodes'])
+    for _ in range(rnd.choice([1, 1, 2, 3])):
+        ep = {}
+        k = rnd.random()
+        if k < 0.55:
+            ep['inject'] = rnd.choice(['build0', 'build', 'setup0', 'setup', 'results', ['event', 1], ['event', rnd.randint(1, 6)], ['event', rnd.randint(2, 12)]])
+        if rnd.random() < 0.5: ep['maxT'] = rnd.choice([0.25, 0.5, 1.0, 1.5])           # cut short, often with events still queued
+        if rnd.random() < 0.5:
+            ep['params'] = {kk: (rnd.choice(D[1:-1]) if kk.split('.')[-1].startswith('p') and not kk.endswith('Infected') else v)
+                            for p in base['procs'] for kk, v in p.get('params', {}).items() if isinstance(v, float) and kk.split('.')[-1].startswith('p')}
+        if rnd.random() < 0.4:
+            ep['edges'] = [[a, b] for a in range(n) for b in range(a + 1, n) if rnd.random() < 0.5]
+        if rnd.random() < 0.3:
+            ep.setdefault('params', {})['vp.dropedges'] = rnd.choice([1, 2])          # a generator parameter the recorded run does not supply
+        hist.append(ep)
+    base.update(history=hist, fixed_proto=rnd.random() < 0.5, maxevents=150)
+    return base
+
+
+def gen_genlimit(rnd):
+    return dict(mode='genlimit', limit=rnd.choice([None, 0, 1, 2, 3, 5]), asks=rnd.randint(0, 8), how=[rnd.choice(['generate', 'next']) for _ in range(8)],
+                fixed=rnd.random() < 0.5, seed=0, dyn='sto', procs=[])
+
+
+def run_genlimit(spec):
+    import networkx as nx
+    from epydemic import FixedNetwork, NetworkGenerator
+    proto = nx.path_graph(4)
+    made = []
+
+    class G(NetworkGenerator):
+        def topology(self): return 'test'
+        def _generate(self, params): g = nx.path_graph(3); return g
+    gen = FixedNetwork(proto, limit=spec['limit']) if spec['fixed'] else G(limit=spec['limit'])
+    for i in range(spec['asks']):
+        if spec['how'][i] == 'generate': g = gen.generate()
+        else:
+            try: g = next(gen)
+            except StopIteration: g = None
+        if g is not None: made.append(g)
+    viol = []
+    if spec['limit'] is not None and len(made) > spec['limit']: viol.append(('fresh', f"a generator with limit {spec['limit']} yielded {len(made)} networks"))
+    if spec['limit'] is None and len(made) != spec['asks']: viol.append(('fresh', "an unlimited generator refused a network"))
+    if spec['fixed']:
+        for g in made:
+            if g is proto or any(g is h for h in made if h is not g): viol.append(('fresh', "FixedNetwork handed out the prototype itself or the same object twice"))
+            if list(g.nodes()) != list(proto.nodes()) or sorted(map(sorted, g.edges())) != sorted(map(sorted, proto.edges())): viol.append(('fresh', "a copy differs from the prototype"))
+        if made:
+            made[0].add_edge(0, 3); made[0].nodes[0]['x'] = 1
+            if proto.has_edge(0, 3) or 'x' in proto.nodes[0] or any(h.has_edge(0, 3) for h in made[1:]): viol.append(('fresh', "changing one copy changed the prototype or another copy"))
+    rem = gen._remaining
+    return [f"GEN {'-' if spec['limit'] is None else spec['limit']} {spec['asks']}"], [f"made={len(made)} remaining={rem}"], \
+        dict(events=spec['asks'], oracle=viol[:1], exc=None, handlers=[], tags=['genlimit'])
+
+
+RUNNERS['genlimit'] = run_genlimit
